@@ -787,6 +787,19 @@ theorem every_handback_reflects (rs : List Req) :
     ∀ p ∈ List.zip rs (runReqs .repaired Cache.empty rs).2, reflects p.1 p.2 = true :=
   (runReqs_repaired Cache.empty rs cacheOK_empty).2
 
+/-- **element-kind switches on one cached wrapper** (same tree type, system and metric, no
+    `reconstruct`): after ANY walk through element kinds — A,B,A, A,B,C,A, … — the wrapper handed
+    back for kind `e` routes its queries to the sklearn tree built from kind `e`. -/
+theorem kind_switch_reflects (k : TreeKind) (s : Sys) (m : Metric) (es : List Elem) (e : Elem) :
+    reflects ⟨k, e, s, m, false⟩
+      (getTree .repaired (runReqs .repaired Cache.empty (es.map fun e' => ⟨k, e', s, m, false⟩)).1
+        ⟨k, e, s, m, false⟩).2 = true :=
+  tree_reflects_request _ _
+
+example : (getTree .repaired (runReqs .repaired Cache.empty
+      [⟨.kd, .nodes, .spherical, .l2, false⟩, ⟨.kd, .faces, .spherical, .l2, false⟩]).1
+      ⟨.kd, .nodes, .spherical, .l2, false⟩).2.current = some ⟨.nodes, .spherical, .l2⟩ := by decide
+
 /-- **the code as it stands** (only `coordinates` compared): a ball tree requested with Cartesian
     coordinates after the default spherical one is the spherical haversine tree. -/
 theorem asis_cache_stale :
